@@ -164,6 +164,16 @@ type cacheEnv struct {
 	defs []cdef
 }
 
+// partner: another template id of the same exporter (-1 if the alphabet has none)
+func (e *cacheEnv) partner(k int) int {
+	for j := range e.keys {
+		if j != k && e.keys[j].addr.Equal(e.keys[k].addr) && len(e.keys[j].addr) == len(e.keys[k].addr) && e.keys[j].id != e.keys[k].id {
+			return j
+		}
+	}
+	return -1
+}
+
 func (e *cacheEnv) tpl(k, d int) ref.Template {
 	return ref.Template{ID: e.keys[k].id, Fields: e.defs[d].fields}
 }
@@ -178,9 +188,15 @@ func (e *cacheEnv) apply(c *flowh.Caches, ev cevent) (recs [][]ref.ExpField, unk
 	k := e.keys[ev.k]
 	dataSet := ref.Set{Kind: ref.SetRaw, RawID: k.id, RawBody: probeBody}
 	switch ev.kind {
-	case "ann", "ann+data", "data+ann", "data+ann+data":
+	case "ann", "ann+data", "data+ann", "data+ann+data", "ann-two-in-one-set":
 		t := e.tpl(ev.k, ev.d)
 		ts := ref.Set{Kind: ref.SetTemplates, Templates: []ref.Template{t}}
+		if ev.kind == "ann-two-in-one-set" { // this id and another id of the same exporter announced by ONE set, then data for this id
+			p := e.partner(ev.k)
+			ts.Templates = []ref.Template{t, e.tpl(p, (ev.d+1)%len(e.defs))}
+			r := flowh.Decode(e.v9, k.addr, e.msg(ts, dataSet).Encode(nil), c)
+			return r.Records, r.Err != nil && strings.Contains(r.Err.Error(), "unknown"), fmt.Sprint(r.Err)
+		}
 		var m *ref.Msg
 		switch ev.kind {
 		case "ann":
@@ -343,6 +359,9 @@ func cacheBFS(tier string) mck.Space {
 		for k := range env.keys {
 			for d := range env.defs {
 				evs = append(evs, cevent{"ann", k, d}, cevent{"ann+data", k, d}, cevent{"data+ann", k, d}, cevent{"data+ann+data", k, d}, cevent{"insert", k, d})
+				if env.partner(k) >= 0 {
+					evs = append(evs, cevent{"ann-two-in-one-set", k, d})
+				}
 			}
 			evs = append(evs, cevent{"data", k, 0})
 			if !env.v9 {
@@ -372,6 +391,10 @@ func cacheBFS(tier string) mck.Space {
 				nref[ev.k] = ev.d
 			case "ann+data":
 				nref[ev.k] = ev.d
+				wantRecs = env.expected(ev.d)
+			case "ann-two-in-one-set":
+				nref[ev.k] = ev.d
+				nref[env.partner(ev.k)] = (ev.d + 1) % len(env.defs)
 				wantRecs = env.expected(ev.d)
 			case "data+ann":
 				if cur[ev.k] >= 0 {
